@@ -45,6 +45,11 @@ CHECKS = {
    text="(queue) every push/pop/commit+reopen/copy history to depth 5 (thorough 7) of the real StateDB queue, started from index cells 0, 254 and 65534 so that keys cross the 1->2->3 byte boundaries, agrees with a FIFO list on every pop, on indices and on every readable element, and equal queue contents give equal ETX roots. (routing) for every word of length <=4 (6) over {zone, region, prime block, inject conversion} after a warm-up and followed by a draining suffix, a monitor over the canonical zone chain demands: executed ETX ids are a subset of emitted ones, none twice, only after the coincident block, payload unchanged except conversion repricing, execution order is exactly the concatenation of the inbound lists handed down by the dominant chain, nothing handed down twice, and everything emitted before the drain is delivered and executed. (inclusion) on own blocks carrying 1-4 inbound ETXs every single edit (swap, duplicate, drop, unknown, altered value, omit all) is rejected.",
    note="Trusts: a single zone (expansion 0), so every ETX (coinbase, conversion) travels zone->region->prime->region->zone and no cross-zone destination exists; reorganisations during routing are not driven; scaled constants.",
    design="2/C04"),
+ "C13": dict(
+   technique="exhaustive assignment of miner kinds (lock bytes, Qi/Quai, work shares) to blocks of a real 3-level chain; temporal monitor over the whole history (formula recomputation, per-height balance deltas, output scan, duplicate-share offers)",
+   text="All 125 (thorough 625) assignments of {Quai lock byte 0/1/2, Qi, Quai + work share} to 3 (4) consecutive blocks of a 27-block prime/region/zone history, each crossed with an attempt to list the included share again 1..4 blocks later. Per block the coinbase ETXs emitted are recomputed from chain data (rewarded block three back, its shares, entropy weights, exchange rate of the prime terminus) and must match in number, beneficiary, data and amount; every executed Quai coinbase must show up as exactly one balance increase of the dedicated miner account at exactly execution height + lock depth with exactly the lockup-adjusted amount (minus the account-creation fee on first credit) and nowhere else; every executed Qi coinbase must have produced outputs owned by the miner, locked until exactly that height and worth exactly the adjusted amount; a block listing an already included share is rejected.",
+   note="Trusts: scaled constants incl. BlocksPerMonth=2 (so that lock bytes are legal), pre-KawPow reward rules (entropy-weighted split), histories without user fees. Not covered: contract-held lockups (accumulation/claim through the lockup precompile), reorganisations across unlock heights, per-algorithm share rewards after the fork.",
+   design="2/C13"),
 }
 
 NOT_YET = "check not built yet in this session (planned; see DESIGN.md section 2)"
